@@ -1,4 +1,5 @@
 import PcbV.Model.Mbf
+import PcbV.Model.MbfMulFixed
 namespace PcbV.Drv.MbfCommon
 open PcbV PcbV.Mbf
 
@@ -36,7 +37,8 @@ def handle : List String → String
         match op with
         | "add" => showFR f (iadd f x y)
         | "sub" => showFR f (isub f x y)
-        | "mul" => showFR f (imul f x y)
+        | "mul" => showFR f (imulFixed f x y)     -- `Float.imul` after the repair of D5
+        | "mulold" => showFR f (imul f x y)
         | "div" => showFR f (idiv f x y)
         | "gt" => "ok " ++ showBool (gt f x y)
         | "eq" => "ok " ++ showBool (Mbf.eq x y)
